@@ -176,6 +176,25 @@ def run_on(fb, chk, tag=""):
             requested = any(a[0] == "true" and "closure" in show(a[1]) for a in o.atoms)
             if {"SocketBroken"} not in names and not requested:
                 stray.append(sorted(n for ns in names for n in ns if n not in ("HandleRequest",))[:3])
+    # ... and, the other way round, EVERY request error is forgiven once shutdown was requested: an error return for a
+    # request error must have seen the shutdown flag false (whatever the error: the request hit by the shutdown can fail
+    # in any position - header, body, validation)
+    unforgiven = []
+    for o in outs:
+        if o.ret is None or ret_okness(o.ret) is not False:
+            continue
+        if not any(a[0] == "notok" and show(a[1]).startswith("unwrap(map_err(join(") for a in o.atoms):
+            continue
+        vs = [a for a in o.atoms if a[0] == "variant" and not a[3]]
+        is_req = any("HandleRequest" in a[2] and len(a[2]) == 1 for a in vs)
+        if not is_req:
+            continue
+        tested = any(a[0] == "false" and "closure" in show(a[1]) for a in o.atoms)
+        if not tested:
+            unforgiven.append(sorted(n for a in vs for n in a[2] if n != "HandleRequest")[:4])
+    chk.check(not unforgiven, "H3", tag + "requested-forgives-all", "every request error is returned only after the shutdown flag was seen false",
+              "wait() returns a request error (%s) without consulting the shutdown flag: a wait following a shutdown request fails when the "
+              "interrupted request ends with that error" % unforgiven, w.loc())
     chk.check(not stray, "H3", tag + "no-other-ok", "a thread error becomes Ok only for SocketBroken or after a shutdown request",
               "wait() returns Ok for thread errors %s without a shutdown request (a peer disconnect must be reported as an error)" % stray, w.loc())
     chk.check(cases["nothread"] is True, "H3", tag + "no-thread", "no thread -> Ok", "wait without a thread returns %s" % cases["nothread"], w.loc())
@@ -187,6 +206,25 @@ def run_on(fb, chk, tag=""):
               "a request error without shutdown request maps to %s (a peer disconnect must be reported)" % cases["not_requested"], w.loc())
     chk.check(all_reset, "H3", tag + "state-reset", "connection state reset on every path", "a path of wait() keeps the old connection state (the daemon could not accept a new connection)", w.loc())
     # the flag the closure reads is the shutdown flag
+    # wait() forgives SocketBroken unconditionally, so that class must mean what it says: it is produced only by the
+    # errno conversion and by the endpoints' sticky-error accessors, never for protocol-level conditions (short body...)
+    nsb = 0
+    for g in fb.fns.values():
+        if g.crate != "vhost" or "::tests::" in g.key or "/tests/" in (g.file or ""):
+            continue
+        for b in g.blocks:
+            if b["cleanup"]:
+                continue
+            for st in b["stmts"]:
+                if st["k"] == "assign" and st["rv"]["k"] == "agg" and st["rv"].get("variant") == "SocketBroken" \
+                        and (st["rv"].get("adt") or "").endswith("vhost_user::Error"):
+                    nsb += 1
+                    role_ok = (g.trait or "").endswith("From") or g.name == "check_state"
+                    chk.check(role_ok, "H3", "%ssocket-broken-source:%s" % (tag, g.short), "SocketBroken built from a socket errno / the sticky error only",
+                              "%s reports Error::SocketBroken for a condition that is not a socket error: VhostUserDaemon::wait() maps this "
+                              "class to Ok even without a shutdown request, so the condition (e.g. a peer disconnect inside a request body) "
+                              "is no longer reported" % g.short, g.loc(st.get("line")))
+    chk.check(nsb >= 3, "H3", tag + "socket-broken-sources", "%d construction sites" % nsb, "SocketBroken construction sites not found")
     # ------------------------------------------------------------------ H4
     sv = fb.one(name="serve", self_adt="VhostUserDaemon")
     chk.fn_seen(sv)
